@@ -85,7 +85,7 @@ def make_cases(prop, tier, seed, cfg):
     cases = []
     for c in load_corpus(prop):
         cases.append((c["version"], c.get("kind", "base"), c.get("persist", "none"), c["hist"], c["name"]))
-    n = cfg["quick"] if tier == "quick" else cfg["thorough"]
+    n = (cfg["quick"] if tier == "quick" else cfg["thorough"]) * common.effort(tier)
     for i in range(n):
         version = rng.choice(cfg.get("versions", gw.VERSIONS))
         kind = rng.choice(cfg.get("kinds", ["base", "base", "tcp", "mqtt"]))
